@@ -39,7 +39,7 @@ PROPS = {
                     "u64 amount, fee rate within the hard limit, adaptive-fee state in range (InfoOK, itself preserved)"],
     },
     "C08": {
-        "lean_modules": ["WP.Props.C08"],
+        "lean_modules": ["WP.Props.C08", "WP.Props.LimitGuards"],
         "lean_support": ["WP.Props.C02.Components", "WP.Props.C02.Amounts", "WP.Lemmas.Rounding"],
         "families": [("ltd", 40000, 2000000), ("est", 40000, 2000000), ("hist", 10000, 300000)],
         "history": True,
